@@ -184,10 +184,13 @@ def one_arm(prog, rep, f, fg1, option, orth, psi_decr):
             return
     wx = comp["Rhat"] * psiR + comp["Zhat"] * psiZ
     rep.ob("R2", "%s: curl_x == curl . grad(psi)" % label, (cx - wx).is_zero(), site, "residual " + (cx - wx).residual()[:200], key=label + "/curl_x")
-    t = ctx.const(0) if orth else tb
+    # grad y = (yhat + tanB * gradpsi_hat)/hy with beta positive when e_x leans towards -yhat
+    # (the convention of the beta method, C02.R6/R10); in R-Z components, Bp signed:
+    bsv = -1 if psi_decr else 1
+    t = ctx.const(0) if orth else tb * bsv
     Gy = ((BR - BZ * t) / (Bp * hy), (BZ + BR * t) / (Bp * hy))
     wy = comp["Rhat"] * Gy[0] + comp["Zhat"] * Gy[1]
-    rep.ob("R2", "%s: curl_y == curl . (B_R - B_Z tanB, B_Z + B_R tanB)/(Bp hy)" % label, (cy - wy).is_zero(), site, "residual " + (cy - wy).residual()[:200], key=label + "/curl_y")
+    rep.ob("R2", "%s: curl_y == curl . (B_R - bpsign B_Z tanB, B_Z + bpsign B_R tanB)/(Bp hy)" % label, (cy - wy).is_zero(), site, "residual " + (cy - wy).residual()[:200], key=label + "/curl_y")
     wz = comp["zetahat"] / R - Bt * hy / (Bp * R) * cy - env["self.I"] * cx
     rep.ob("R2", "%s: curl_z == curl_zeta/R - (Bt hy/(Bp R)) curl_y - I curl_x" % label, (cz - wz).is_zero(), site, "residual " + (cz - wz).residual()[:200], key=label + "/curl_z")
     # R3 magnitude of grad y
